@@ -4,6 +4,7 @@ import (
 	"fmt"
 	"os"
 	"runtime"
+	"runtime/debug"
 	"testing"
 	"time"
 )
@@ -14,7 +15,9 @@ import (
 // running. A process that grows beyond the cap stops with a marker the driver
 // reports as an infrastructure problem (no verdict), never as a violation.
 func TestMain(m *testing.M) {
-	const capBytes = 3 << 30
+	const capBytes = 4 << 30
+	// garbage alone must not reach the cap: make the collector work harder long before it
+	debug.SetMemoryLimit(2 << 30)
 	go func() {
 		var ms runtime.MemStats
 		for {
